@@ -16,6 +16,7 @@ EXPLANATION = (
     "wiring. R15.6 Bencher::counter replaces only the counter of its own kind."
     ' R15.3 also: whether a bench_options field is stored by config_with_args depends on the option being present, never on the value given. R15.7 attribute level (engine E3): every option written in an attribute, and #[ignore] in all its forms, is emitted into the BenchOptions field of the same name with the value as written and nothing else is emitted. R15.8 each counter kind means the same everywhere: KnownCounterKind::of::<T>(), the kind AnyCounter::new stores for a T (with that value\'s own count) and the arm of count_inputs_as agree for every type implementing Counter; known_kind()/count() return the stored fields; CounterSet::insert writes exactly the slot of the inserted counter\'s kind; with is insert. R15.9 what threads = <value> turns into: n gives [n] on every path (the borrowed constants hold that very n), true gives [0], false gives [1], iterables are collected, sorted, then de-duplicated, items verbatim. R15.10 counter builders: Divan::<kind>_count(n) is self.counter(n.into()) with the counter type of that kind; counter hands its argument to counter_mut and returns self; counter_mut inserts into self.bench_options.counters only. R15.8 also covers the checked downcast (cast_ref/is_type_eq/proxy_type_id) AnyCounter::new decides the kind through.')
 EXPLANATION += (' R15.11 (= R14.3) the terse listing resolves ignore like a run (inherited options threaded and merged with overwrite). R15.12 an option that may be given without a value is read by occurrence; bare means true, a value is taken as given, absence writes nothing (path summaries of the reader). R15.13 no option definition carries a clap default, so absence on the command line keeps what the Divan builder configured.')
+EXPLANATION += (' R15.14 config_with_args writes bench_options fields only with values built as Some(..) (an absent flag never erases a builder value).')
 NOT_DECIDED = ["clap's own precedence of flag over environment variable (trusted library)",
                "programs outside the analysed macro corpus (R15.7 decides the attribute -> field mapping for the corpus and the repository's own programs)"]
 TRUSTED = ["clap: a flag given on the command line takes precedence over its .env() fallback"]
